@@ -49,6 +49,8 @@ ASSUMPTIONS = [
     "from the solver seam; exceptions at arbitrary lines are not injected.",
     "merge_faces tolerances stay within atol<=1e-6, rtol<=1e-4 so that only genuinely coplanar "
     "faces merge.",
+    "Hostile caller: an ndarray passed to a setter is overwritten by the caller right after the "
+    "call; a shape that kept a reference instead of a copy then disagrees with the fresh model.",
 ]
 
 
@@ -97,9 +99,13 @@ def gen_spec(seed, index, tier):
     obj = None
     for _ in range(30):
         lo = -0.3 if cls == "Polyhedron" else -1.5
+        sc = 10 ** shape_rng.uniform(lo, 1.6)
+        if cls in ("ConvexPolyhedron", "ConvexSpheropolyhedron") and shape_rng.chance(0.12):
+            # the hull-based classes use no vendored helper with absolute tolerances:
+            # some runs live at very small sizes
+            sc = 10 ** shape_rng.uniform(-8, -3)
         cand = gen.gen_base(shape_rng, cls, allow_scramble=True,
-                            allow_invalid_faces=shape_rng.chance(0.05),
-                            scale=10 ** shape_rng.uniform(lo, 1.6))
+                            allow_invalid_faces=shape_rng.chance(0.05), scale=sc)
         try:
             obj = gen.build(cand)
             base = cand
@@ -114,8 +120,10 @@ def gen_spec(seed, index, tier):
         spec["steps"] = []
         return spec
     n = ops.randint(1, 8 if tier == "quick" else 12)
+    tiny = history.extent(obj) < 5e-3
     steps = history.gen_steps(ops, obj, n, malformed_rate=0.06, bad_rate=0.06, factor_decades=1.0,
-                              ext_range=(0.3 if cls == "Polyhedron" else 1e-2, 300.0))
+                              ext_range=((1e-9, 1e-2) if tiny else
+                                         (0.3 if cls == "Polyhedron" else 1e-2, 300.0)))
     A = alphabet(cls)
     k = index // len(CLASSES)
     if tier == "quick" and k < len(A):
@@ -226,7 +234,7 @@ def _execute(spec, world):
         res["sets"]["bigrams"].add("%s:%s>%s" % (cls, prev_op, name))
         prev_op = name
         g_pre = history.geometry(obj)
-        r = history.apply(obj, st, world)
+        r = history.apply(obj, st, world, scribble=True)
         try:
             g_post = history.geometry(obj)
         except Exception as e:  # noqa: BLE001
